@@ -3,6 +3,7 @@
 Proved (coq/props/C14.v): canonical token stream => canonical tree, everywhere in the tree.
 Validated: both tokenizers' streams and every node list of every parsed tree on the shared input stream.
 """
+import headfrag
 import tokprops
 import vlib
 
@@ -13,6 +14,7 @@ def run(tier, seed):
     tokprops.run_stream(c, tier, seed, ("canon",),
                         "non-trivial = input contains markup characters or produced a non-Text token; distinct by (text, context, skip)",
                         builder_tie=True)
+    headfrag.run(c, tier, seed, ("canon",))
     c.assumptions += ["that the tokenizers emit canonical streams is validated by testing, not proved (PARTIAL, see DESIGN.md C14)"]
     return c.finish()
 
